@@ -1,4 +1,54 @@
-import Rbp.Model.Script
+import Rbp.Proofs.Templates
+import Rbp.Proofs.OpReturn
+/-!
+# C05 — Bitcoin/testnet3: every output script gets the reference type and address
+The rust-bitcoin predicates are modelled by hand in `S`; these theorems relate the model to byte templates.
+-/
 namespace Rbp.Props.C05
-theorem placeholder_unfolds (v : UInt8) (s : List UInt8) : S.eval v s = (if v = 0x00 then S.evalBtc false s else if v = 0x6f then S.evalBtc true s else S.evalCustom v s) := rfl
+open S
+
+/-- P2PKH predicate ⇔ byte template `76 a9 14 <20 bytes> 88 ac` -/
+theorem p2pkh_iff_template (s : Bytes) :
+    isP2pkh s = true ↔ ∃ h : Bytes, h.length = 20 ∧ s = [0x76, 0xa9, 0x14] ++ h ++ [0x88, 0xac] := isP2pkh_iff s
+
+/-- P2SH predicate ⇔ byte template `a9 14 <20 bytes> 87` -/
+theorem p2sh_iff_template (s : Bytes) :
+    isP2sh s = true ↔ ∃ h : Bytes, h.length = 20 ∧ s = [0xa9, 0x14] ++ h ++ [0x87] := isP2sh_iff s
+
+/-- the two templates are disjoint -/
+theorem p2pkh_p2sh_disjoint (s : Bytes) : ¬ (isP2pkh s = true ∧ isP2sh s = true) := by
+  rintro ⟨h1, h2⟩
+  simp only [isP2pkh, isP2sh, decide_eq_true_eq] at h1 h2
+  omega
+
+/-- reference verdicts: type and address of every canonical template, both networks
+    (P2PKH/P2SH: Base58Check of prefix ‖ embedded hash with prefixes 0x00/0x05, testnet 0x6f/0xc4;
+     P2PK: the P2PKH form of HASH160(key); P2WPKH/P2WSH: Bech32 v0; P2TR: Bech32m v1, hrp bc/tb) -/
+theorem template_verdicts (testnet : Bool) :
+    (∀ h : Bytes, h.length = 20 → evalBtc testnet ([0x76, 0xa9, 0x14] ++ h ++ [0x88, 0xac]) = ⟨.p2pkh, some (A.base58check (pkPrefix testnet :: h))⟩) ∧
+    (∀ h : Bytes, h.length = 20 → evalBtc testnet ([0xa9, 0x14] ++ h ++ [0x87]) = ⟨.p2sh, some (A.base58check (shPrefix testnet :: h))⟩) ∧
+    (∀ k : Bytes, k.length = 33 ∨ k.length = 65 → evalBtc testnet (UInt8.ofNat k.length :: k ++ [0xac]) = ⟨.p2pk, some (A.base58check (pkPrefix testnet :: A.hash160 k))⟩) ∧
+    (∀ h : Bytes, h.length = 20 → evalBtc testnet ([0x00, 0x14] ++ h) = ⟨.p2wpkh, some (A.segwitAddr (hrp testnet) 0 h)⟩) ∧
+    (∀ h : Bytes, h.length = 32 → evalBtc testnet ([0x00, 0x20] ++ h) = ⟨.p2wsh, some (A.segwitAddr (hrp testnet) 0 h)⟩) ∧
+    (∀ h : Bytes, h.length = 32 → evalBtc testnet ([0x51, 0x20] ++ h) = ⟨.p2tr, some (A.segwitAddr (hrp testnet) 1 h)⟩) :=
+  ⟨eval_p2pkh testnet, eval_p2sh testnet, eval_p2pk testnet, eval_p2wpkh testnet, eval_p2wsh testnet, eval_p2tr testnet⟩
+
+/-- OP_RETURN and provably unspendable scripts (first opcode of class Return or Illegal) are decided first and never
+    carry an address -/
+theorem opreturn_unspendable_no_address (testnet : Bool) (b : UInt8) (rest : Bytes) :
+    ((evalBtc testnet (0x6a :: rest)).address = none ∧ ∃ p, (evalBtc testnet (0x6a :: rest)).pattern = .opReturn p) ∧
+    (b ≠ 0x6a → (classify b = .ret ∨ classify b = .illegal) → evalBtc testnet (b :: rest) = ⟨.unspendable, none⟩) :=
+  ⟨eval_opreturn_no_address testnet rest, eval_unspendable testnet b rest⟩
+
+/-- the network prefixes used above are the published ones -/
+theorem prefixes_published :
+    pkPrefix false = 0x00 ∧ shPrefix false = 0x05 ∧ pkPrefix true = 0x6f ∧ shPrefix true = 0xc4 ∧ hrp false = "bc" ∧ hrp true = "tb" := by
+  decide
+
+/-- rust-bitcoin's instruction iterator on the encoding of any well-formed token list yields exactly its instructions
+    (OP_0 as an empty push): the basis of the m-of-n and OP_RETURN verdicts -/
+theorem instructions_roundtrip (toks : List T.Tok) (h : ∀ t ∈ toks, t.WF) :
+    instrs (toks.flatMap T.Tok.enc) = toks.map (fun t => some (SM.toIns t)) :=
+  SM.instrs_enc toks h
+
 end Rbp.Props.C05
